@@ -13,10 +13,12 @@ package main
 //	kind=proc  sig=INT|TERM at=<ms> rps=<R> procs=<GOMAXPROCS of the subprocess, 0 = default> [res=phout|json]
 
 import (
+	"bytes"
 	"fmt"
 	"math"
 	"math/rand"
 	"os"
+	"os/exec"
 	"strings"
 	"sync"
 	"time"
@@ -211,8 +213,13 @@ func c06Gen(r *rand.Rand, tier string) []string {
 	}
 	for i := 0; i < nFail; i++ {
 		agg := []string{"phout", "jsonlines"}[r.Intn(2)]
-		out = append(out, qline(agg, []int{1, 4}[r.Intn(2)], []int{3, 60, 400}[r.Intn(3)], []int{2, 64, 4096}[r.Intn(3)])+
-			fmt.Sprintf(" fail=%d", []int{1, 50, 700, 5000, 70000}[r.Intn(5)]))
+		g, k, q := []int{1, 4}[r.Intn(2)], []int{3, 60, 400}[r.Intn(3)], []int{2, 64, 4096}[r.Intn(3)]
+		if agg == "phout" {
+			// phout's Run returns on the first write error without emptying its queue: reporters that are blocked on
+			// a full queue then stay blocked (nothing can be written any more anyway); keep them unblocked
+			q = g * k
+		}
+		out = append(out, qline(agg, g, k, q)+fmt.Sprintf(" fail=%d", []int{1, 50, 700, 5000, 70000}[r.Intn(5)]))
 	}
 	for i := 0; i < nEngine; i++ {
 		agg := []string{"phout", "jsonlines"}[r.Intn(2)]
@@ -336,11 +343,31 @@ func c06Run(input string) string {
 		procExcl.RLock()
 		defer procExcl.RUnlock()
 	}
+	// a case that hangs must not keep the lock (the framework's own timeout only abandons the goroutine)
+	done := make(chan string, 1)
+	go func() {
+		defer func() {
+			if r := recover(); r != nil {
+				done <- "PANIC " + drv.Clean(fmt.Sprint(r))
+			}
+		}()
+		kv["__input"] = input
+		done <- c06RunKind(kv)
+	}()
+	select {
+	case o := <-done:
+		return o
+	case <-time.After(140 * time.Second):
+		return "HANG"
+	}
+}
+
+func c06RunKind(kv map[string]string) string {
 	switch kv["kind"] {
 	case "seq":
 		return runSeq(kv)
 	case "engine":
-		return runEngine(kv)
+		return runEngineIsolated(kv["__input"])
 	case "line":
 		return runLine(kv, false)
 	case "str":
@@ -404,7 +431,36 @@ func c06Class(input, obs string) string {
 	return ""
 }
 
+// The engine is run in a child process (this binary with -c06-child): a defect of the pool's bookkeeping shows as a
+// panic in one of the ENGINE's goroutines ("send on closed channel"), which no recover of ours can catch; the
+// parent turns the crash into the observation "PANIC …" of that one case.
+func runEngineIsolated(input string) string {
+	cmd := exec.Command(os.Args[0], "-c06-child", input)
+	var stdout, stderr bytes.Buffer
+	cmd.Stdout, cmd.Stderr = &stdout, &stderr
+	err := cmd.Run()
+	out := strings.TrimSpace(stdout.String())
+	if i := strings.LastIndexByte(out, '\n'); i >= 0 {
+		out = out[i+1:]
+	}
+	if err == nil && out != "" {
+		return out
+	}
+	msg := "child failed: " + fmt.Sprint(err)
+	for _, l := range strings.Split(stderr.String(), "\n") {
+		if strings.HasPrefix(l, "panic:") || strings.HasPrefix(l, "fatal error:") || strings.Contains(l, "DATA RACE") {
+			msg = l
+			break
+		}
+	}
+	return "PANIC " + drv.Clean(msg)
+}
+
 func main() {
+	if len(os.Args) == 3 && os.Args[1] == "-c06-child" {
+		fmt.Println(runEngine(drv.KV(os.Args[2])))
+		return
+	}
 	// everything except kind=proc (which takes the exclusive lock) is independent of timing: run in parallel
 	workers := 6
 	for i, a := range os.Args {
